@@ -120,15 +120,28 @@ func c04Hello(body []byte) (random, sid []byte, rest []byte, ok bool) {
 
 // c04Analyze checks one tapped conversation against the reference derivation.
 // prevMaster: master secret of the original session when this conversation is a resumption.
-func c04Analyze(r *vfPair, c c04Case, resumed bool, prev *c04Conv, ccache, scache *vfCapCache, encKey *sm2.PrivateKey, recka *vfRecKA, up, down []byte) (conv *c04Conv, sig, msg string) {
+type c04Opt struct {
+	SkipApp bool // do not compare application bytes (tampered conversations)
+	CHBack  int  // use the n-th ClientHello counted from the last one (0 = last)
+}
+
+func c04Analyze(r *vfPair, c c04Case, resumed bool, prev *c04Conv, ccache, scache *vfCapCache, encKey *sm2.PrivateKey, recka *vfRecKA, up, down []byte, opts ...c04Opt) (conv *c04Conv, sig, msg string) {
+	var opt c04Opt
+	if len(opts) > 0 {
+		opt = opts[0]
+	}
 	crecs, srecs := vfRecordsOf(r, 0), vfRecordsOf(r, 1)
 	cmsgs, smsgs := vfPlainHandshake(crecs), vfPlainHandshake(srecs)
 	// --- hellos
 	var ch, sh *vfHSMsg
+	var chs []*vfHSMsg
 	for i := range cmsgs {
 		if cmsgs[i].Typ == hsClientHello {
-			ch = &cmsgs[i] // the last ClientHello (DTLCP: the one carrying the cookie)
+			chs = append(chs, &cmsgs[i])
 		}
+	}
+	if len(chs) > opt.CHBack {
+		ch = chs[len(chs)-1-opt.CHBack] // by default the last ClientHello (DTLCP: the one carrying the cookie)
 	}
 	for i := range smsgs {
 		if smsgs[i].Typ == hsServerHello && sh == nil {
@@ -319,6 +332,9 @@ func c04Analyze(r *vfPair, c c04Case, resumed bool, prev *c04Conv, ccache, scach
 		if !bytes.Equal(r.CFin[0][:], wantC) || !bytes.Equal(r.SFin[0][:], wantC) {
 			return nil, "finished-stored", "clientFinished stored by the endpoints differs from the wire"
 		}
+	}
+	if opt.SkipApp {
+		return &c04Conv{master: master, sid: append([]byte(nil), sid...)}, "", ""
 	}
 	if !bytes.Equal(dirs[0].app, up) {
 		return nil, "app-up", fmt.Sprintf("decrypted client->server application bytes (%d) differ from what was written (%d)", len(dirs[0].app), len(up))
